@@ -62,13 +62,18 @@ P = {
    note=TB + " Code pages other than 1200 and BIFF2-5 string branches are not modelled.",
    technique="Coq proof (induction over strings/segments with a reader-position invariant) + extracted-model correspondence",
    design_ref="5/C12"),
- "C15": dict(claimed=False, reason="temporarily not claimed: the SharedFmla model is being brought up to date with the fix: commits 7595189, 0817afa, 2d75670 (the check reports the stale model as a broken correspondence until then)",
-   text="Coq theorems over SharedFmla.v: C15_translate_correct (for every well-formed token list in range and outside the known classes "
-        "replace_cell_names (render ts) off = render (map (translate off) ts); scanner-splitting lemma + induction over tokens), "
-        "the vertical-group variant, C15_inert_text, C15_group_covers_range (offset-map construction and lookup, total and exact), "
-        "offset-map characterisation. Eight known classes (F22-*) with vm_compute refutation lemmas. Tie: hook replace_cell_names and "
-        "A1 helpers, generated xlsx sheets with shared groups through worksheet_formula.",
-   note=TB + " The XML layer (attribute parsing, several <f> per cell) is exercised end to end but not modelled.",
+ "C15": dict(claimed=True,
+   text="Coq theorems over SharedFmla.v, for every oracle is_alnum (char::is_alphanumeric) that is right on ASCII: "
+        "C15_translate_correct / _at (for every well-formed token list — mixed $ forms, look-alike function / sheet / defined names, "
+        "non-ASCII text, quoted sheet names, bracketed references, 1E5 — in range and outside the two remaining classes, "
+        "replace_cell_names (render ts) off = render (map (translate off) ts); per-token scanner lemmas + induction over tokens), "
+        "C15_translate_total (references that would leave the sheet stay unchanged), C15_no_panic (any text, |offset| <= 2^62: Ok), "
+        "C15_group_covers_range (map keyed by si, declared ref + master position, offset at lookup: every cell of column / row / "
+        "block refs, any master position, any order of shared indices; total and exact). Two known classes (F22-whole-range, "
+        "F22-sheet3d) with vm_compute refutation lemmas. Tie: hook replace_cell_names and A1 helpers, is_alphanumeric oracle taken "
+        "from the harness, generated xlsx sheets with shared groups through worksheet_formula.",
+   note=TB + " The XML layer (attribute parsing, several <f> per cell) is exercised end to end but not modelled; char::is_alphanumeric is a "
+        "Section variable constrained on ASCII only.",
    technique="Coq proof (scanner invariant at token boundaries; induction over token lists and group cells) + extracted-model correspondence",
    design_ref="5/C15"),
  "C08": dict(claimed=True,
